@@ -30,6 +30,9 @@ type c08Case struct {
 	SizeClass int    `json:"size_class"` // 0 small, 1 mixed, 2 large (up to 64 KB)
 	Spice     string `json:"spice"`      // text put into every payload (format verbs, escapes, template syntax, non-ASCII); XML-safe as it is also used raw
 	AfterDisc bool   `json:"after_disconnect"`
+	// PeerDrops (WebSocket only, instead of AfterDisc): at the end the server drops the connection; once the loss has
+	// been reported a send cannot succeed any more and must say so
+	PeerDrops bool `json:"peer_drops,omitempty"`
 	// LogFault > 0 (with Logger): every LogFault-th write to the traffic log is short (half the bytes, io.ErrShortWrite).
 	// A send may then fail, but whatever it returns, the wire must stay exact.
 	LogFault int `json:"log_fault,omitempty"`
@@ -64,6 +67,7 @@ func genC08(t *rapid.T) c08Case {
 		SizeClass: rapid.IntRange(0, 2).Draw(t, "sizeClass"),
 		Logger:    rapid.IntRange(0, 2).Draw(t, "logger") == 0,
 		AfterDisc: rapid.IntRange(0, 3).Draw(t, "afterDisc") == 0,
+		PeerDrops: rapid.IntRange(0, 1).Draw(t, "peerDrops") == 0,
 	}
 	c.Spice = rapid.SampledFrom(c08Spices).Draw(t, "spice")
 	if c.Entity == "client" {
@@ -154,6 +158,8 @@ func runC08(c c08Case) vh.Result {
 	script := &peer.Script{Mechs: []string{"PLAIN"}, OfferSM: c.SM, OfferTLS: c.Transport == "tls", Cert: "valid"}
 	var sender xmpp.Sender
 	var disconnect func() error
+	var wsRec *recorder
+	dropNow := make(chan struct{})
 	var logFile *os.File
 	if c.Logger {
 		f, err := os.CreateTemp("", "verif-c08-*.log")
@@ -170,6 +176,10 @@ func runC08(c c08Case) vh.Result {
 			if !out.Established {
 				return
 			}
+			go func() {
+				<-dropNow
+				wc.DropTCP(2 * time.Second)
+			}()
 			if out.First != nil {
 				record(out.First.Attr["id"], out.First.Raw)
 			}
@@ -192,12 +202,13 @@ func runC08(c c08Case) vh.Result {
 			return res
 		}
 		defer srv.Close()
-		cl, _, cfg, err := newTestClientCfg(srv.URL, clientOpt{Insecure: true, SM: c.SM})
+		cl, wsrec, cfg, err := newTestClientCfg(srv.URL, clientOpt{Insecure: true, SM: c.SM})
 		if err != nil {
 			res.Fail("harness", "NewClient: %v", err)
 			return res
 		}
 		_ = cfg
+		wsRec = wsrec
 		if logFile != nil {
 			xmpp.VerifGetTransport(cl).LogTraffic(logFile)
 		}
@@ -440,6 +451,23 @@ func runC08(c c08Case) vh.Result {
 				}
 			}
 		}
+	}
+	if c.PeerDrops && c.Transport == "ws" && wsRec != nil && len(res.Violations) == 0 {
+		res.Label("send-after-reported-loss")
+		close(dropNow)
+		if !waitFor(vh.Margin(5*time.Second), func() bool { return wsRec.count(xmpp.StateDisconnected) >= 1 }) {
+			res.Fail("t/loss-not-reported", "%s: the server dropped the WebSocket connection; no Disconnected event", desc)
+			return res
+		}
+		m := stanza.NewMessage(stanza.Attrs{To: "a@localhost", Id: "after-loss"})
+		m.Body = "x"
+		err1 := sender.Send(m)
+		err2 := sender.SendRaw("<message id='after-loss-raw'/>")
+		if err1 == nil || err2 == nil {
+			res.Fail("send-after-loss-succeeds", "%s: the loss of the WebSocket connection had been reported, yet Send returned %v and SendRaw %v: nothing can have been written", desc, err1, err2)
+		}
+		go func() { _ = disconnect() }()
+		return res
 	}
 	// sends after Disconnect must fail cleanly
 	if c.AfterDisc {
